@@ -92,6 +92,36 @@ CLAIMS = {
              "has_semantic_literals = any over literals().",
         note=ASSUME + "Not decided: Token::literals/components pipelines; `never sometimes` is C06's clause.",
         ref="4 C12"),
+    "C06": dict(
+        technique="static analysis: THIR case-table evaluation of the three check functions against a reference decision table + loop-carried-dependence rule + evaluation of the traversal on abstract trees",
+        text="Decides ~1600 decision cells of check_branch / check_alternation / check_repetition (terminal shapes x "
+             "neighbour predicates x bound shapes) against a reference written from the documented rules; context-freedom "
+             "twice: no loop-assigned variable reaches a check argument, and on a catalogue of abstract trees every branch "
+             "body is checked exactly once with exactly its own nearest neighbours; Starting/Ending selection; boundary "
+             "kinds; bounds and size predicates; check = all four rules; Checked constructed only by audited functions.",
+        note=ASSUME + "Not decided: completeness of the rule set; the group_by pipeline of `boundary()`.",
+        ref="4 C06"),
+    "C11": dict(
+        technique="static analysis: THIR case-table evaluation (text terms of all leaf kinds, conjunction order, disjunction shapes, conversion)",
+        text="Decides the finite parts of the text variance: leaf terms (literal x flag x casing, class archetype shapes, "
+             "separator, wildcards), left-then-right concatenation and repetition of fragments, disjunction of invariants "
+             "invariant only when equal, TextVariance::from. The law `invariant text is the only match` itself is not computed.",
+        note=ASSUME + "Unix: PATHS_ARE_CASE_INSENSITIVE = false. Not decided: case-folded equality; classes listing a separator.",
+        ref="4 C11"),
+    "C18": dict(
+        technique="static analysis: constants of resolved nom calls in the parser's THIR vs. evaluated is_meta_character (set equalities) + THIR evaluation of escape",
+        text="Decides that escape() and the parser agree on the meta-character set: E = M, S = M + {/,\\}, same escape "
+             "character, class escapes consistent, contextual meta-characters escapable; escape evaluated on strings "
+             "covering every meta-character.",
+        note=ASSUME + "Assumed: nom combinator semantics. Not decided: that the escaped text builds / is invariant (C01, C06, C11).",
+        ref="4 C18"),
+    "C19": dict(
+        technique="static analysis: THIR evaluation of the generic fold_map on a catalogue of abstract trees + variant tables + provenance of (tree, program) pairs + who-may-construct",
+        text="Decides that conversions preserve structure: variant-preserving kind tables, Token::into_owned rebuilds every "
+             "catalogue tree identically, every Glob/Any construction pairs a tree with the program compiled from it, FromStr / "
+             "TryFrom / Display / Pattern routes reach new / parse_and_check.",
+        note=ASSUME + "Not decided: equality of behaviour as such.",
+        ref="4 C19"),
 }
 
 NA_DEFAULT = "check not built yet (work in progress; see DESIGN.md section 4 for the planned rules)"
